@@ -293,7 +293,7 @@ def r12_6(ctx):
 def r12_s(ctx):
     """clauses of the validating skipper behind the checked iterators (shared with C02): whitespace classifiers, value-start alphabet, \\u digits, closing bracket after whitespace, one-fraction discipline"""
     from . import c02
-    for fn in (c02.r02_2, c02.r02_4, c02.r02_5, c02.r02_7, c02.r02_10, c02.r02_11):
+    for fn in (c02.r02_2, c02.r02_4, c02.r02_5, c02.r02_7, c02.r02_10, c02.r02_11, c02.r02_12):
         ctx.include(fn, 'R12.S')
     from . import c13
     ctx.include(c13.r13_6, 'R12.S')  # the unchecked iterators agree with the checked ones: escape carry across blocks
